@@ -674,7 +674,7 @@ func init() {
 	// ---- sync -----------------------------------------------------------------------------------
 	lock := func(write bool) Intrinsic {
 		return func(ex *Exec, g *G, fn *ssa.Function, a []Value) (Value, bool) {
-			if ex.preemptPoint(g) {
+			if !ex.cfg.NoMutexPreempt && ex.preemptPoint(g) {
 				g.top.ip--
 				return nil, true
 			}
@@ -842,6 +842,33 @@ func init() {
 		t.E[2] = Ptr{}
 		return t, true
 	})
+
+	// ---- tickers / timers: channels that may fire nondeterministically a bounded number of times ----
+	stubChan := func(ex *Exec, name string) ChanV {
+		ex.objCount++
+		fires := 0
+		if v, ok := ex.cfg.Params["TICKS"]; ok {
+			fires = int(v)
+		}
+		tt := ex.w.prog.ImportedPackage("time").Type("Time").Type()
+		return ChanV{C: &ChanObj{ID: ex.objCount, Cap: 1, ElemT: tt, StubName: name, StubFires: fires}}
+	}
+	reg("time.NewTicker", func(ex *Exec, g *G, fn *ssa.Function, a []Value) (Value, bool) {
+		tk := ex.zero(fn.Signature.Results().At(0).Type().(*types.Pointer).Elem()).(*AggV)
+		tk.E[0] = stubChan(ex, "ticker")
+		c := ex.newAgg(1)
+		c.E[0] = tk
+		ex.noteAssume("time.NewTicker/NewTimer/After are stub channels that fire nondeterministically at most TICKS times")
+		return Ptr{C: c}, true
+	})
+	reg("time.NewTimer", intrinsics["time.NewTicker"])
+	reg("time.After", func(ex *Exec, g *G, fn *ssa.Function, a []Value) (Value, bool) {
+		return stubChan(ex, "after"), true
+	})
+	reg("(*time.Ticker).Stop", func(ex *Exec, g *G, fn *ssa.Function, a []Value) (Value, bool) { return nil, true })
+	reg("(*time.Ticker).Reset", func(ex *Exec, g *G, fn *ssa.Function, a []Value) (Value, bool) { return nil, true })
+	reg("(*time.Timer).Stop", func(ex *Exec, g *G, fn *ssa.Function, a []Value) (Value, bool) { return ex.ts.True(), true })
+	reg("(*time.Timer).Reset", func(ex *Exec, g *G, fn *ssa.Function, a []Value) (Value, bool) { return ex.ts.True(), true })
 
 	// ---- sync/atomic package-level functions -----------------------------------------------------
 	atomicLoad := func(ex *Exec, g *G, fn *ssa.Function, a []Value) (Value, bool) {
